@@ -37,6 +37,9 @@ m = {
     "not_applicable": [],
     "notes": "All checks: ./check <id> quick|thorough, replay with ./check <id> --replay <file>. Seeds via VERIF_SEED. Genuine defects repaired by 'fix:' commits or listed in known_findings.json; see DESIGN.md section 5.",
 }
+# a property is claimed once its check has produced an evidence file from a run in /verif
+CHECKS = {i: v for i, v in CHECKS.items() if os.path.exists(os.path.join(ROOT, "evidence", i + ".json"))}
+m["engines"][0]["serves_properties"] = sorted(CHECKS)
 for i in ids:
     if i in CHECKS:
         tech, text, note = CHECKS[i]
